@@ -106,7 +106,7 @@ def annotation_stub(self, obj):
 
 
 @contextlib.contextmanager
-def installed(contracts, keep_real=()):
+def installed(contracts, keep_real=(), backend=None, extra_patches=()):
     import cola  # noqa
     import cola.linalg  # noqa
     import cola.linalg.svd.svd  # noqa
@@ -136,7 +136,8 @@ def installed(contracts, keep_real=()):
             def missing(*a, _nm=nm, **k):
                 raise Unsupported(f"callee generic function {_nm} has no contract")
             stubs[nm] = missing
-    sym_get = lambda dtype: symfns  # noqa
+    _backend = backend if backend is not None else symfns
+    sym_get = lambda dtype: _backend  # noqa
     for mname, mod in list(sys.modules.items()):
         if not (mname == "cola" or mname.startswith("cola.")) or mod is None:
             continue
@@ -171,6 +172,10 @@ def installed(contracts, keep_real=()):
         elif hasattr(mod, attr):
             saved.append((mod, attr, getattr(mod, attr), True))
             setattr(mod, attr, fn)
+    for (mname, attr, fn) in extra_patches:
+        mod = sys.modules.get(mname) or __import__(mname, fromlist=["x"])
+        saved.append((mod, attr, getattr(mod, attr), True))
+        setattr(mod, attr, fn)
     old_call = ann.WrapMeta.__call__
     ann.WrapMeta.__call__ = annotation_stub
     try:
